@@ -242,10 +242,13 @@ pub broadcast group group_utf8 { axiom_boff_boundary, axiom_boff_ends, axiom_bof
 pub open spec fn is_sub_at(s: Seq<char>, p: Seq<char>, i: int) -> bool {
     0 <= i && i + p.len() <= s.len() && s.subrange(i, i + p.len()) == p
 }
+#[verifier::opaque]
 pub open spec fn contains_seq(s: Seq<char>, p: Seq<char>) -> bool { exists|i: int| is_sub_at(s, p, i) }
+#[verifier::opaque]
 pub open spec fn first_at(s: Seq<char>, p: Seq<char>, i: int) -> bool {
     is_sub_at(s, p, i) && forall|j: int| 0 <= j < i ==> !is_sub_at(s, p, j)
 }
+#[verifier::opaque]
 pub open spec fn last_at(s: Seq<char>, p: Seq<char>, i: int) -> bool {
     is_sub_at(s, p, i) && forall|j: int| i < j <= s.len() ==> !is_sub_at(s, p, j)
 }
